@@ -79,6 +79,15 @@ PROPS['C17'] = {
     'trust': PARSER_TRUST,
 }
 
+PROPS['C11'] = {
+    'units': ['parser'],
+    'level': 'proof',
+    'claim': 'Flow nesting: increase_flow_level is verified to fail (Err) at level 255 and otherwise to add exactly one level and one simple-key slot, decrease_flow_level to be its inverse. The pull parser keeps its continuation on the heap Vec<State> (C02 contracts). The push interface recurses once per nesting level: load_node carries the precondition nest_bounded() and the recursion a lexicographic decreases clause; the termination part is proved, the depth precondition cannot be established at the three recursive call sites because nothing bounds block nesting - reported as KNOWN-FINDING (100 000 x "- " aborts load_from_str with a stack overflow).',
+    'technique': 'Verus: postconditions on the flow-level functions; recursion measure and depth precondition on load_node/load_sequence/load_mapping',
+    'not_decided': ['bytes of machine stack per frame', 'recursion of derived Drop/Clone/Eq/Hash on the loaded tree and of the emitter (compiler-generated or outside the units)', 'the scanner invariant flow_level <= 255 follows from the u8 type'],
+    'trust': PARSER_TRUST,
+}
+
 
 def trusted_base(pid):
     return COMMON_TRUST + PROPS[pid].get('trust', [])
